@@ -149,6 +149,11 @@ def classify(case, model_pos):
     stage = r.get("stage")
     if not stage and not r.get("compile_rejected"):
         return "accepted", "compiled: %d bytes of SPIR-V" % r.get("compile_bytes", 0)
+    if not stage and (r.get("outputs") or {}).get("spv"):
+        # Parse, LowerWithSource, Validate and GenerateSPIRV all succeed and emit code; only the one-call
+        # naga.Compile objects later (e.g. while resolving overrides): the program IS compiled to output
+        return "accepted", "step-by-step API compiled it (%d bytes of SPIR-V); naga.Compile rejects it only later: %s" % (
+            r["outputs"]["spv"], (r.get("compile_err") or "")[:120])
     if r.get("compile_bytes", 0) > 0 and r.get("compile_rejected"):
         return "output-despite-error", ""
     if bool(stage) != bool(r.get("compile_rejected")):
